@@ -23,8 +23,8 @@ RULE = ('file sets of 3-10 Fortran files (subroutine files with seeded rule viol
         'plans parallel runs per case. Non-trivial = serial run reported violations, every planned run finished and '
         'at least two distinct completion orders were observed among the multi-worker runs; distinct = hash of '
         'file contents and patterns.')
-CASES = {'quick': 48, 'thorough': 480}
-MIN_NONTRIVIAL = {'quick': 30, 'thorough': 300}
+CASES = {'quick': 48, 'thorough': 320}
+MIN_NONTRIVIAL = {'quick': 20, 'thorough': 200}
 ANCHORS = []
 REQUIRED_COUNTERS = {'trace_task_pairs': 50, 'parallel_runs_compared': 10}
 ASSUMPTIONS = ['the serial (max_workers=1) run is the reference result',
